@@ -75,7 +75,7 @@ func checkC12(c *Check) {
 	var twFuncs []*FuncInfo
 	p.AllFuncs([]*packagesPkg{qpk}, func(fi *FuncInfo) {
 		sig := fi.Obj.Type().(*types.Signature)
-		if sig.Recv() != nil && namedOf(sig.Recv().Type()) == twType || fi.Obj.Name() == "NewTimeWheel" {
+		if sig.Recv() != nil && namedOf(sig.Recv().Type()) == twType || refName(fi.Obj) == "NewTimeWheel" {
 			twFuncs = append(twFuncs, fi)
 			c.SawFunc(fi.Name())
 		}
@@ -302,7 +302,7 @@ func checkC12(c *Check) {
 	for _, g := range gos {
 		if fn := callee(info, g.call); fn != nil && okOne && fn == dcalls[0].fi.Obj {
 			nTick++
-			if g.fi.Obj.Name() != "NewTimeWheel" {
+			if refName(g.fi.Obj) != "NewTimeWheel" {
 				nTick += 10
 			}
 		}
@@ -312,7 +312,7 @@ func checkC12(c *Check) {
 	// ---- R3 lock discipline
 	c.Rule("R3", "every access to the slot list holds the list's mutex", 3)
 	for _, fi := range twFuncs {
-		if fi.Obj.Name() == "NewTimeWheel" {
+		if refName(fi.Obj) == "NewTimeWheel" {
 			continue
 		}
 		ast.Inspect(fi.Decl.Body, func(x ast.Node) bool {
@@ -343,7 +343,7 @@ func checkC12(c *Check) {
 		ast.Inspect(fi.Decl.Body, func(x ast.Node) bool {
 			if call, ok := x.(*ast.CallExpr); ok && isCall(info, call, "sync.WaitGroup.Add") && isField(info, callRecv(call), "Queue", "deliveryWg") {
 				addSites++
-				if fi.Obj.Name() != "dispatch" {
+				if refName(fi.Obj) != "dispatch" {
 					okAdd = false
 				}
 				// must be in the synchronous part (not inside the goroutine literal)
@@ -511,10 +511,10 @@ func checkC12(c *Check) {
 	{
 		var addFI, closeFI *FuncInfo
 		for _, fi := range twFuncs {
-			if fi.Obj.Name() == "Add" {
+			if refName(fi.Obj) == "Add" {
 				addFI = fi
 			}
-			if fi.Obj.Name() == "Close" {
+			if refName(fi.Obj) == "Close" {
 				closeFI = fi
 			}
 		}
